@@ -1,6 +1,7 @@
 import ElvisVerif.Model.TcpSys
 import ElvisVerif.Lemmas.TcbInv
 import ElvisVerif.Lemmas.TcbNoop
+import ElvisVerif.Lemmas.TcbWindow
 /-!
 # C17 — A TCP endpoint withstands arbitrary segments from its peer address
 
@@ -210,6 +211,122 @@ example : ∃ s : Tcb, s.state = .Established ∧ Wf s ∧ HeapIdle s ∧
     have : k < 1 := by simpa [forge, Segment.segLen, Ctl.ofNat] using hk
     have hk' : k = 0 := by omega
     subst hk'; decide
+
+/-! ## new data stays inside the window the peer advertised
+
+`InSendWindow s seg` : `(SEG.SEQ − SND.UNA) + |text| ≤ SND.WND` (+1 while our SYN is
+unacknowledged, the SYN occupying `SND.UNA` itself), i.e. the text lies in
+`[SND.UNA, SND.UNA + SND.WND)`; `SND.WND` is only ever set from a segment that passed the
+acceptability and ACK tests.  `SndOk` (`Lemmas/TcbWindow.lean`) is the invariant behind it: in
+the states in which `segments()` segmentizes, the retransmission queue is a contiguous chain
+ending at `SND.NXT` that covers `[SND.UNA, SND.NXT)`. -/
+
+/-- what a segment handed to the network by `segments()` can be -/
+def EmittedOk (s : Tcb) (seg : Segment) : Prop :=
+  seg.text = [] ∨ (∃ t ∈ s.outgoing.retransmit, t.segment = seg) ∨ InSendWindow s seg
+
+/-- **Window, one call.**  Every segment `segments()` returns is text-free (ACK, RST, SYN, FIN),
+    a retransmission of a segment already on the queue, or new data inside the peer's window. -/
+theorem c17_window (s : Tcb) (hok : SndOk s) (s' : Tcb) (out : List Segment)
+    (e : s.segments = .ok (s', out)) : ∀ seg ∈ out, EmittedOk s seg :=
+  (segments_window s hok s' out e).2
+
+/-- every call except `abort` (after which the TCB is to be deleted) keeps the send-side
+    invariant -/
+theorem c17_window_invariant (s : Tcb) (h : Wf s) (hok : SndOk s) (c : Call) (hc : c.Valid)
+    (hna : c ≠ .abort) (s' : Tcb) (e : s.call c = .ok (some s')) : SndOk s' := by
+  cases c with
+  | segmentArrives seg =>
+    simp only [Tcb.call] at e
+    cases h1 : s.segmentArrives seg with
+    | error err => rw [h1] at e; simp at e
+    | ok p =>
+      obtain ⟨s1, r1⟩ := p
+      rw [h1] at e
+      cases r1 with
+      | Ok => simp at e; subst e; exact hok.step (segmentArrives_pres s seg h hc _ _ h1)
+      | Close => simp at e
+  | advanceTime ms =>
+    simp only [Tcb.call] at e
+    cases h1 : s.advanceTime ms with
+    | error err => rw [h1] at e; simp at e
+    | ok p =>
+      obtain ⟨s1, r1⟩ := p
+      rw [h1] at e
+      cases r1 with
+      | Ignore => simp at e; subst e; exact hok.step (advanceTime_pres s ms _ _ h1)
+      | CloseConnection => simp at e
+  | send bytes => simp only [Tcb.call] at e; cases e; exact hok.step (send_pres s bytes)
+  | receive => simp only [Tcb.call] at e; cases e; exact hok.step (receive_pres s)
+  | close =>
+    simp only [Tcb.call] at e
+    cases h1 : s.close with
+    | error err => rw [h1] at e; simp at e
+    | ok p =>
+      obtain ⟨s1, r1⟩ := p
+      rw [h1] at e
+      simp at e; subst e
+      exact hok.step (close_pres s _ _ h1)
+  | abort => exact absurd rfl hna
+  | segments =>
+    simp only [Tcb.call] at e
+    cases h1 : s.segments with
+    | error err => rw [h1] at e; simp at e
+    | ok p =>
+      obtain ⟨s1, out⟩ := p
+      rw [h1] at e
+      simp at e; subst e
+      exact hok.step (segments_window s hok _ _ h1).1
+
+/-- `P` holds for the output of every `segments()` call along the run -/
+def Tcb.emits (P : Tcb → Segment → Prop) : Option Tcb → List Call → Prop
+  | none, _ => True
+  | some _, [] => True
+  | some s, c :: cs =>
+    (c = .segments → ∀ s' out, s.segments = .ok (s', out) → ∀ seg ∈ out, P s seg) ∧
+    ∀ r, s.call c = .ok r → Tcb.emits P r cs
+
+/-- **Window, all runs.**  From a well-formed TCB satisfying the invariant (in particular from
+    `open` and from LISTEN, `c17_window_start`), along every finite sequence of segments — any
+    flags, numbers, windows (shrinking ones included) — and API calls other than `abort`, every
+    segment ever handed to the network is text-free, a retransmission, or inside the window. -/
+theorem c17_window_run (s : Tcb) (h : Wf s) (hi : HeapIdle s) (hok : SndOk s) (cs : List Call)
+    (hcs : ∀ c ∈ cs, c.Valid ∧ c ≠ .abort) : Tcb.emits EmittedOk (some s) cs := by
+  induction cs generalizing s with
+  | nil => trivial
+  | cons c cs ih =>
+    refine ⟨fun _ s' out e => c17_window s hok s' out e, fun r e => ?_⟩
+    cases r with
+    | none => cases cs <;> trivial
+    | some s' =>
+      obtain ⟨r', e', wf'⟩ := c17_total s h hi c (hcs c (by simp)).1
+      rw [e] at e'
+      cases e'
+      obtain ⟨wf1, idle1⟩ := wf' s' rfl
+      exact ih s' wf1 idle1 (c17_window_invariant s h hok c (hcs c (by simp)).1 (hcs c (by simp)).2 s' e)
+        (fun c hc => hcs c (by simp [hc]))
+
+/-- both ways a TCB comes into existence establish the invariant -/
+theorem c17_window_start :
+    (∀ lp rp iss mtu s, Tcb.open lp rp iss mtu = .ok s → SndOk s) ∧
+    (∀ seg iss mtu tcb, segmentArrivesListen seg iss mtu = .ok (some (.Tcb tcb)) → SndOk tcb) :=
+  ⟨open_sndOk, listen_sndOk⟩
+
+/-- without the exclusion the statement is false: `abort` empties the retransmission queue but
+    leaves `SND.NXT` ahead of `SND.UNA` and the state unchanged; a later write is segmentized as
+    if nothing were in flight (`abort` documents that the TCB is to be deleted afterwards) -/
+theorem c17_window_abort_counterexample :
+    ∃ s : Tcb, SndOk s ∧ ∃ s1, s.abort = .ok s1 ∧ ¬ SndOk s1 := by
+  refine ⟨{ localPort := 1, remotePort := 2, mtu := 1500, initiation := .Open, state := .Established,
+            snd := { una := 1001, nxt := 1004, wnd := 100, iss := 1000 }, rcv := { irs := 5000, nxt := 5001 },
+            outgoing := { retransmit := [Transmit.new ⟨(Hdr.builder 1 2 1001).built, [1, 2, 3]⟩] } }, ?_, ?_⟩
+  · intro _
+    refine ⟨⟨Or.inr ⟨rfl, rfl, by decide⟩, trivial⟩, by decide, by decide⟩
+  · refine ⟨_, by rw [abort, enqueue_eq], ?_⟩
+    intro hok
+    have := (hok (by decide)).cover
+    revert this
+    decide
 
 /-! ## regression witnesses of the repaired defects
 
